@@ -1,6 +1,7 @@
 """C15 - symbol-version sections resolve each symbol to its encoded version."""
 from symx.api import H
 from spec import enc
+from harness.elfkit import stream_length
 from spec import elf_layout as L
 from spec import registry as REG
 
@@ -26,6 +27,7 @@ class _Elf:
     def __init__(self, ctx, stream, cls, little):
         S = ctx.lib('elf.structs')
         self.stream = stream
+        self.stream_len = stream_length(stream)
         self.elfclass = cls
         self.little_endian = little
         self.structs = S.ELFStructs(little_endian=little, elfclass=cls)
@@ -175,6 +177,14 @@ def h_chain(ctx):
             for k, val in w.items():
                 ctx.check_eq('chain/aux/%s' % k, a[k], val)
             ctx.check_eq('chain/aux/name', a.name, _name(ctx, w['vna_name' if need else 'vda_name']))
+    # the auxiliary iterator handed out with an entry stays that entry's, in whatever order the two levels are consumed: all
+    # entries collected first, then their auxiliaries walked last entry first
+    pairs = ctx.drain(section.iter_versions())
+    late = [(v, ctx.drain(it)) for v, it in reversed(pairs)][::-1]
+    key = 'vna_name' if need else 'vda_name'
+    ctx.check_eq('chain/%s/auxiliaries-walked-later' % cfg['layout'], [[a[key] for a in auxs] for _, auxs in late], [[w[key] for w in wa] for _, wa in ents])
+    if need:
+        ctx.check_eq('chain/auxiliaries-walked-later/other', [[a['vna_other'] for a in auxs] for _, auxs in late], [[w['vna_other'] for w in wa] for _, wa in ents])
 
 
 def h_index(ctx):
